@@ -276,6 +276,60 @@ def check(recipe, ctx):
     ctx.outcome([exp[0], exp[1] if exp[0] == 'err' else None, repr(recipe['steps'])])
 
 
+# ---------------------------------------------------------------------------
+# S-rooted destinations: put-get through the scope
+
+def gen_sassign(draw):
+    return {'wrap': draw(st.sampled_from(['bare', 'spec', 'auto', 'coalesce', 'tuple1', 'pipe', 'or', 'dictval'])),
+            'pre': draw(st.sampled_from([None, 'old-value'])),
+            'dest': draw(st.sampled_from(['name', 'name', 'box.k', 'box.new'])),
+            'val': draw(st.sampled_from([['lit', ['i', 42]], ['T', []], ['lit', ['list', [['i', 1]]]]]))}
+
+
+def check_sassign(recipe, ctx):
+    from glom import Auto, Coalesce, Pipe, Or
+    target = {'t': 1}
+    box = {'k': 'box-old'}
+    scope = {'box': box}
+    if recipe['pre'] is not None:
+        scope['name'] = recipe['pre']
+    val = build_val(recipe['val'], target)
+    expected_val = target if recipe['val'][0] == 'T' else tg.build(recipe['val'][1]).obj
+    dest = recipe['dest']
+    if dest == 'name':
+        path, reader = S['name'], S['name']
+    else:
+        key = dest.split('.')[1]
+        path, reader = S['box'][key], S['box'][key]
+    a = Assign(path, val)
+    wrap = recipe['wrap']
+    step = {'bare': a, 'spec': Spec(a), 'auto': Auto(a), 'coalesce': Coalesce(a), 'tuple1': (a,), 'pipe': Pipe(a),
+            'or': Or(a), 'dictval': a}[wrap]
+    ctx.nontrivial(wrap != 'bare')
+    ctx.label('wrap-' + wrap, 'dest-' + dest)
+    where = 'glom(%r, (%r, %r), scope=%r)' % (target, step, reader, scope)
+    if wrap == 'dictval':
+        # a dict value is a sibling position: what it binds in the scope is invisible afterwards (C07);
+        # only check that the call works and the caller's mapping is left alone
+        try:
+            glom.glom(target, {'x': a}, scope=scope)
+        except Exception as e:
+            raise Mismatch('spurious-error', '%s: %r' % (where, e))
+    else:
+        try:
+            got = glom.glom(target, (step, reader), scope=scope)
+        except Exception as e:
+            raise Mismatch('put-get', '%s: reading the assigned scope name back raised %s: %s'
+                           % (where, type(e).__name__, str(e).splitlines()[-1][:200]))
+        same = (got is expected_val) if recipe['val'][0] == 'T' else (got == expected_val)
+        if not same:
+            raise Mismatch('put-get', '%s: read back %r, expected %r' % (where, got, expected_val))
+    # the caller's scope mapping itself is never modified (its values may be: box is caller-owned and mutable)
+    if set(scope) != ({'box', 'name'} if recipe['pre'] is not None else {'box'}) or scope.get('name') != recipe['pre']:
+        raise Mismatch('caller-scope-modified', '%s: caller mapping is now %r' % (where, scope))
+    ctx.outcome([wrap, dest])
+
+
 def gen_wild(draw):
     """Assign through 1-3 wildcards (generator and oracle shared with C14's mutate sub-check)"""
     from . import c14
@@ -293,4 +347,5 @@ SUBS = [
     Sub('assign', check, gen=gen, quick=4000, thorough=15000,
         floors={'exp-ok': 0.2, 'exp-err': 0.2, 'spelling-str': 0.1, 'spelling-t': 0.02}),
     Sub('wild', check_wild, gen=gen_wild, quick=1500, thorough=5000, floors={'wild-2': 0.1, 'wild-3': 0.1}),
+    Sub('sassign', check_sassign, gen=gen_sassign, quick=400, thorough=1500),
 ]
